@@ -224,6 +224,7 @@ def value_kind(v):
 
 def match_array(spec, val, ctx, label=None, flatten_mode=False):
     """spec: annotation spec dict (k == 'arr'); val: value spec dict.  -> (outcomes, post ctx|None)"""
+    val = unshare(val)
     at = spec["atype"]
     vt = val["t"]
     if vt not in ("np", "duck", "mduck"):
@@ -349,7 +350,7 @@ LEAF = "*"
 
 
 def unshare(v):
-    while v["t"] == "shared":
+    while v["t"] in ("shared", "pool"):
         v = v["v"]
     return v
 
